@@ -18,7 +18,9 @@ pub enum Op {
     /// open a connection in `slot`; `reuse_of`: bind the port last used by that slot (its connection is reset first)
     /// `dead`: the record names a destination nobody listens on, so the proxy's own connect to the host fails at accept time
     /// `idle`: no request is sent right after connecting (the record must be consumed at accept all the same)
-    Open { slot: u8, reuse_of: Option<u8>, record: Option<u8>, #[serde(default)] dead: bool, #[serde(default)] idle: bool },
+    Open { slot: u8, reuse_of: Option<u8>, record: Option<u8>, #[serde(default)] dead: bool, #[serde(default)] idle: bool,
+        /// the client resets the connection right after the handshake, before the listener gets to it: its record is consumed all the same
+        #[serde(default)] abort: bool },
     /// `hang_up`: the host closes its connection with the proxy right after answering this request (unannounced);
     /// `other_host`: the Host header names another endpoint than the one the kernel recorded
     Request { slot: u8, only: u8, #[serde(default)] hang_up: bool, #[serde(default)] other_host: bool },
@@ -38,7 +40,7 @@ pub struct Case {
 
 fn op() -> impl Strategy<Value = Op> {
     prop_oneof![
-        20 => (0u8..4, prop::option::weighted(0.55, 0u8..4), prop::option::weighted(0.6, 0u8..IDENTS), prop::bool::weighted(0.15), prop::bool::weighted(0.25)).prop_map(|(slot, reuse_of, record, dead, idle)| Op::Open { slot, reuse_of, record, dead, idle }),
+        20 => (0u8..4, prop::option::weighted(0.55, 0u8..4), prop::option::weighted(0.6, 0u8..IDENTS), prop::bool::weighted(0.15), prop::bool::weighted(0.25), prop::bool::weighted(0.12)).prop_map(|(slot, reuse_of, record, dead, idle, abort)| Op::Open { slot, reuse_of, record, dead, idle, abort }),
         30 => (0u8..4, 0u8..IDENTS, prop::bool::weighted(0.2), prop::bool::weighted(0.5)).prop_map(|(slot, only, hang_up, other_host)| Op::Request { slot, only, hang_up, other_host }),
         10 => (0u8..4, 0u8..IDENTS).prop_map(|(slot, ident)| Op::Overwrite { slot, ident }),
         10 => (0u8..4).prop_map(|slot| Op::Close { slot }),
@@ -51,7 +53,7 @@ pub fn strategy() -> impl Strategy<Value = Case> {
     prop::collection::vec(op(), 1..24).prop_map(|ops| Case { ops })
 }
 
-pub const RULE: &str = "generator: histories (1-23 ops) over 4 connection slots and 5 identities: Open{fresh port | the port last used by a slot (that connection is reset with SO_LINGER 0 first and the new socket binds the same port), a quarter of the opens stay idle (no request follows the connect: the record must be consumed at accept all the same, within 5 s), in 15% of the attributed opens the record names an unreachable destination so that the proxy's own connect to the host fails at accept time, with a record for identity k or without}, Request{slot, /only/<j>; 20%: the host closes its connection with the proxy right after answering; 50%: the Host header names another endpoint than the recorded one}, Overwrite{slot's port gets a new record while its connection is open}, Close, Batch{2-8 connections opened concurrently from threads, each with its own identity}, Flood{200-1199 idle connections are held open while one attributed connection is opened, used and closed}. Identities differ in uid (generated passwd), process (helper executables) and elevation; the IMDS rule set (enforce, default deny) grants /only/<k> to identity k only, so every decision identifies whose claims were used, and the forwarded claims header gives the elevation bit. oracle: no request ever arrives at a host other than the one the kernel recorded for its connection (after a host hang-up a 5xx without relay is accepted); model port -> pending record; at accept the record moves to the connection and leaves the map (trace shows lookup then remove; the stand-in map has no entry for the port afterwards); every request on a connection is decided with that connection's identity regardless of later overwrites; a connection from a reused port without a fresh record gets 421 on every request. non-trivial: history with a port reuse without a fresh record after an attributed connection, or >= 2 requests on one connection with an overwrite in between, or a batch >= 4; distinct by hash of the history.";
+pub const RULE: &str = "generator: histories (1-23 ops) over 4 connection slots and 5 identities: Open{fresh port | the port last used by a slot (that connection is reset with SO_LINGER 0 first and the new socket binds the same port), a quarter of the opens stay idle (no request follows the connect: the record must be consumed at accept all the same, within 5 s), 12% are reset by the client right after the handshake (same expectation), in 15% of the attributed opens the record names an unreachable destination so that the proxy's own connect to the host fails at accept time, with a record for identity k or without}, Request{slot, /only/<j>; 20%: the host closes its connection with the proxy right after answering; 50%: the Host header names another endpoint than the recorded one}, Overwrite{slot's port gets a new record while its connection is open}, Close, Batch{2-8 connections opened concurrently from threads, each with its own identity}, Flood{200-1199 idle connections are held open while one attributed connection is opened, used and closed}. Identities differ in uid (generated passwd), process (helper executables) and elevation; the IMDS rule set (enforce, default deny) grants /only/<k> to identity k only, so every decision identifies whose claims were used, and the forwarded claims header gives the elevation bit. oracle: no request ever arrives at a host other than the one the kernel recorded for its connection (after a host hang-up a 5xx without relay is accepted); model port -> pending record; at accept the record moves to the connection and leaves the map (trace shows lookup then remove; the stand-in map has no entry for the port afterwards); every request on a connection is decided with that connection's identity regardless of later overwrites; a connection from a reused port without a fresh record gets 421 on every request. non-trivial: history with a port reuse without a fresh record after an attributed connection, or >= 2 requests on one connection with an overwrite in between, or a batch >= 4; distinct by hash of the history.";
 
 pub fn ident_rec(k: u8) -> Rec {
     Rec { uid_sel: k % IDENTS, helper_sel: k % IDENTS, is_root: k % IDENTS == 0, dest: DestSel::Imds }
@@ -162,7 +164,7 @@ pub fn eval(rig: &Rig, case: &Case, stats: &mut Stats) -> Outcome {
     let mut nontrivial = false;
     for (step, op) in case.ops.iter().enumerate() {
         match op {
-            Op::Open { slot, reuse_of, record, dead, idle } => {
+            Op::Open { slot, reuse_of, record, dead, idle, abort } => {
                 let s = *slot as usize % 4;
                 if let Some(c) = slots[s].conn.take() {
                     crate::rawhttp::close_abortive(c.stream);
@@ -236,7 +238,14 @@ pub fn eval(rig: &Rig, case: &Case, stats: &mut Stats) -> Outcome {
                 slots[s] = Slot { upstream_closed: false, dead, conn: Some(conn), port: p, identity, had_attributed_before: identity.is_some(), requests_since_open: 0, overwritten_since_open: false };
                 // first request: also proves that accept processing is over
                 let mut pre_trace: Vec<TraceOp> = Vec::new();
-                if *idle {
+                if *abort {
+                    // reset at once: the listener finds a dead connection in its queue
+                    if let Some(c) = slots[s].conn.take() {
+                        crate::rawhttp::close_abortive(c.stream);
+                    }
+                    stats.class("open:reset-by-the-client-before-the-listener-handled-it");
+                }
+                if *idle || *abort {
                     // an idle connection: accept processing has to finish on its own (no request will ever prove it):
                     // wait until the listener has looked the port up (and, for an attributed one, removed the record)
                     stats.class("open:idle-connection-without-a-first-request");
